@@ -245,6 +245,15 @@ def run(ck):
         ck.violation('C02:abort:hosts_file=%s' % hc[:40].decode('latin-1').replace('\n', '|'), {'hosts': hc[:300].decode('latin-1'), 'rc': hr['rc'], 'signal': hr['signal'], 'sanitizer': hr['san'][:1]})
     per = (len(dcmds) + 15) // 16
     djobs = [(h_ds, dcmds[i:i + per], os.path.join(ck.workdir, 'd%d' % (i // per))) for i in range(0, len(dcmds), per)]
+    # the same sources in a state in which they fail or have nothing to say (working directory removed, stdin closed, environment empty)
+    fcmds = []
+    for c in dcmds:
+        if c.startswith('ds '):
+            t = c.split()
+            fc = 'dsl %s %s 257 258 300 2048 4096 4097' % (t[1], t[2])
+            if fc not in fcmds:
+                fcmds.append(fc)
+    djobs.append((h_ds, ['failstate'] + fcmds, os.path.join(ck.workdir, 'dfail')))
     res = pmap(lambda j: ('x', run_chunk(j)) if j[0] != h_ds else ('d', run_ds(j)), jobs + djobs)
     evals = 0
     outcomes = set()
@@ -275,9 +284,10 @@ def run(ck):
             nsizes += int(m.group(1))
             outcomes.add(('ds',) + tuple(l.split()[1:3]) + (m.group(2),))
             if m.group(3) != '1':
-                ck.violation('C02:unterminated_result:%s' % ' '.join(l.split()[1:3])[:80], {'line': l})
+                ck.violation('C02:unterminated_result:%s%s' % ('state=cwd_removed_no_stdin_no_env:' if job[1][:1] == ['failstate'] else '', ' '.join(l.split()[1:3])[:80]), {'line': l})
         if rc != 0 or 'done' not in lines[-1:]:
-            cmd = job[1][len(got)] if len(got) < len(job[1]) else '?'
+            dcs = [c for c in job[1] if c.startswith(('ds ', 'dsl '))]
+            cmd = (('failstate; ' if job[1][:1] == ['failstate'] else '') + dcs[len(got)]) if len(got) < len(dcs) else '?'
             ck.violation('C02:component_abort:%s' % cmd[:100], {'command': cmd, 'rc': rc, 'sanitizer': reports[:1]})
             if len(got) + 1 < len(job[1]):
                 ck.capped = True
